@@ -32,7 +32,9 @@ How the model reads the tables:
   `--dry`/`--status` ⇒ `true`.  `ToEditorOutput` passes the constant `true`
   (`Cfg.fixed.listDry`; the tree as found passed `e.Dry`, i.e. `false` for a plain
   `--list --json`).  `compiledTask` only calls `Value` (no write).
-* `guards`: `IsTaskUpToDate` is skipped under `skipFingerprinting` (`--force`); the prompt
+* `guards`: `IsTaskUpToDate` is skipped under `skipFingerprinting` (`--force`) — and exactly then (F8F)
+  `e.recordFingerprint` runs: the sources checker's `IsUpToDate` for what it records, never when dry
+  and only for a task with sources (`invoke … .force` starts the body from `(isUpToDate …).1`); the prompt
   is skipped when dry; `mkdir` is skipped when dry (`Cfg.fixed.dryMkdir = false`; unguarded in
   the tree as found); `execext.RunCommand` is unreachable when dry, but a `task:` command is
   followed (`runCommand:e.RunTask` has no dry guard) and the callee's preconditions are evaluated
@@ -40,8 +42,15 @@ How the model reads the tables:
   `statusOnError` is called at two places — when the prompt is declined (under `!e.Dry`, like the
   prompt itself) and inside the command loop — and, since TS4, reaches `checker.OnError` only under
   `!(e.Dry)` (`Cfg.fixed.dryOnError = false`; unguarded in the tree as found).
-* `checksumIsUpToDate`: read old → compute new → write under `!checker.dry && oldHash !=
-  newHash` → generates check → `return oldHash == newHash` (`sumCheck`).
+* `checksumIsUpToDate` (F8D): read old → compute new → LOOP OVER THE `generates` ENTRIES (`‹4›` =
+  `generatesExist`: cleared when an entry does not exist / matches nothing; an error of `glob` is
+  handed on — `propagate return false, ‹7›` — `checkErr`, `gensErr`) → write under `!checker.dry &&
+  oldHash != newHash` → `return generatesExist && oldHash == newHash` (`sumCheck`).  The propagating
+  return sits BEFORE `os.WriteFile`: on a tree without F8D it comes after, and the table differs.
+* `statusOnError` in the command loop (F8C) sits under `!(t.IgnoreError && isExitError)`: a failure the
+  task's `ignore_error` swallows does not reach the clean-up (`cmdLoop`, `Cmd.ignorable`).
+* `glob` (F8E): a field that cannot be stat'ed, or is a directory, is skipped — no `propagate return`
+  from `os.Stat` —, so whether a path is matched does not depend on other files (`nowPats`).
 * `timestampIsUpToDate` (patched by TS1/TS2): Globs sources, Globs generates, `generatesExist`
   (true; cleared when a non-negated entry's `glob` fails or matches nothing — `gensOk`), Stat
   marker, append marker | create under `!checker.dry`, `time.Now`, max, newer?, `upToDate :=
@@ -76,6 +85,7 @@ theorem dryWiring_calls_ok : DryWiring.calls = [("Executor.RunTask:fingerprint.W
   ("Executor.ToEditorOutput:fingerprint.WithDry", "true"),
   ("Executor.compiledTask:fingerprint.NewChecksumChecker", "e.Dry"),
   ("Executor.compiledTask:fingerprint.NewTimestampChecker", "e.Dry"),
+  ("Executor.recordFingerprint:fingerprint.NewSourcesChecker", "e.Dry"),
   ("Executor.statusOnError:fingerprint.NewSourcesChecker", "e.Dry"),
   ("IsTaskUpToDate:NewSourcesChecker", "‹0›.dry"),
   ("NewSourcesChecker:NewChecksumChecker", "dry"),
@@ -93,6 +103,7 @@ platform and call-count checks, deferred commands — belong to other domains an
 def fingerGuardKeys : List String :=
   ["Executor.RunTask:fingerprint.IsTaskUpToDate", "Executor.RunTask:e.Logger.Prompt", "Executor.RunTask:e.mkdir",
    "Executor.RunTask:e.runCommand", "Executor.RunTask:e.statusOnError", "Executor.RunTask:e.areTaskPreconditionsMet",
+   "Executor.RunTask:e.recordFingerprint", "Executor.recordFingerprint:(fingerprint.NewSourcesChecker).IsUpToDate",
    "Executor.runCommand:e.RunTask", "Executor.runCommand:execext.RunCommand",
    "Executor.Status:fingerprint.IsTaskUpToDate", "Executor.statusOnError:(fingerprint.NewSourcesChecker).OnError",
    "Executor.ToEditorOutput:fingerprint.IsTaskUpToDate", "Executor.ListTasks:e.ToEditorOutput",
@@ -103,15 +114,17 @@ theorem dryWiring_guards_ok :
     DryWiring.guards.filter (fun g => fingerGuardKeys.contains g.1) =
       [("Executor.RunTask:e.areTaskPreconditionsMet", ""),
        ("Executor.RunTask:fingerprint.IsTaskUpToDate", "!((!call.Indirect && e.Force) || e.ForceAll)"),
+       ("Executor.RunTask:e.recordFingerprint", "!(!((!call.Indirect && e.Force) || e.ForceAll))"),
        ("Executor.RunTask:e.Logger.Prompt", "range ‹0›.Prompt && !e.Dry && ‹1› != \"\""),
        ("Executor.RunTask:e.statusOnError", "range ‹0›.Prompt && !e.Dry && ‹1› != \"\""),
        ("Executor.RunTask:e.mkdir", "!e.Dry"),
        ("Executor.RunTask:e.runCommand", "range ‹0›.Cmds && !(‹0›.Cmds[‹2›].Defer)"),
-       ("Executor.RunTask:e.statusOnError", "range ‹0›.Cmds && !(‹0›.Cmds[‹2›].Defer)"),
+       ("Executor.RunTask:e.statusOnError", "range ‹0›.Cmds && !(‹0›.Cmds[‹2›].Defer) && !(‹0›.IgnoreError && ‹3›)"),
        ("Executor.runCommand:e.RunTask", "case t.Cmds[i].Task != \"\""),
        ("Executor.runCommand:execext.RunCommand", "case t.Cmds[i].Cmd != \"\" && !(!shouldRunOnCurrentPlatform(t.Cmds[i].Platforms)) && !(e.Dry)"),
        ("Executor.Status:fingerprint.IsTaskUpToDate", "range calls"),
        ("Executor.statusOnError:(fingerprint.NewSourcesChecker).OnError", "!(e.Dry)"),
+       ("Executor.recordFingerprint:(fingerprint.NewSourcesChecker).IsUpToDate", "!(e.Dry || len(t.Sources) == 0)"),
        ("Executor.ToEditorOutput:fingerprint.IsTaskUpToDate", "!(noStatus)"),
        ("Executor.ListTasks:e.ToEditorOutput", "o.FormatTaskListAsJSON"),
        ("Executor.Run:summary.PrintTask", "e.Summary && range calls"),
@@ -128,12 +141,16 @@ theorem fingerOrder_checksumIsUpToDate_ok : FingerOrder.checksumIsUpToDate = [("
   ("def ‹0› := strings.TrimSpace(string(‹1›))", "!(len(t.Sources) == 0)"),
   ("checker.checksum", "!(len(t.Sources) == 0)"),
   ("def ‹2›, ‹3› := checker.checksum(t)", "!(len(t.Sources) == 0)"),
+  ("def ‹4› := true", "!(len(t.Sources) == 0) && !(‹3› != nil)"),
+  ("glob", "!(len(t.Sources) == 0) && range t.Generates && !(‹5›.Negate)"),
+  ("def ‹6›, ‹7› := glob(t.Dir, ‹5›.Glob)", "!(len(t.Sources) == 0) && !(‹3› != nil) && range t.Generates && !(‹5›.Negate)"),
+  ("def ‹4› = false", "!(len(t.Sources) == 0) && !(‹3› != nil) && range t.Generates && !(‹5›.Negate) && os.IsNotExist(‹7›)"),
+  ("propagate return false, ‹7›", "‹7› != nil | glob"),
+  ("def ‹4› = false", "!(len(t.Sources) == 0) && !(‹3› != nil) && range t.Generates && !(‹5›.Negate) && !(‹7› != nil) && len(‹6›) == 0"),
   ("os.MkdirAll", "!(len(t.Sources) == 0) && !checker.dry && ‹0› != ‹2›"),
   ("os.WriteFile", "!(len(t.Sources) == 0) && !checker.dry && ‹0› != ‹2›"),
-  ("glob", "!(len(t.Sources) == 0) && len(t.Generates) > 0 && range t.Generates && !(‹4›.Negate)"),
-  ("def ‹5›, ‹6› := glob(t.Dir, ‹4›.Glob)", "!(len(t.Sources) == 0) && !(‹3› != nil) && len(t.Generates) > 0 && range t.Generates && !(‹4›.Negate)"),
-  ("return false, nil", "!(len(t.Sources) == 0) && len(t.Generates) > 0 && range t.Generates && !(‹4›.Negate) && len(‹5›) == 0"),
-  ("return ‹0› == ‹2›, nil", "!(len(t.Sources) == 0)")] := by rfl
+  ("propagate return false, ‹3›", "‹3› != nil | os.WriteFile"),
+  ("return ‹4› && ‹0› == ‹2›, nil", "!(len(t.Sources) == 0)")] := by rfl
 
 theorem fingerOrder_checksumOnError_ok : FingerOrder.checksumOnError = [("return nil", "len(t.Sources) == 0"),
   ("os.Remove", "!(len(t.Sources) == 0)"),
@@ -142,6 +159,7 @@ theorem fingerOrder_checksumOnError_ok : FingerOrder.checksumOnError = [("return
 
 theorem fingerOrder_checksumSum_ok : FingerOrder.checksumSum = [("Globs", ""),
   ("def ‹0›, ‹1› := Globs(t.Dir, t.Sources)", ""),
+  ("propagate return \"\", ‹1›", "‹1› != nil | Globs"),
   ("xxh3.New", ""),
   ("def ‹2› := xxh3.New()", "!(‹1› != nil)"),
   ("xxh3.New", ""),
@@ -149,14 +167,17 @@ theorem fingerOrder_checksumSum_ok : FingerOrder.checksumSum = [("Globs", ""),
   ("filepath.Rel", "range ‹0›"),
   ("filepath.ToSlash", "range ‹0›"),
   ("io.CopyBuffer", "range ‹0›"),
+  ("propagate return \"\", ‹4›", "‹4› != nil | io.CopyBuffer"),
   ("os.Open", "range ‹0›"),
+  ("propagate return \"\", ‹5›", "‹5› != nil | os.Open"),
   ("io.CopyBuffer", "range ‹0›"),
+  ("propagate return \"\", ‹5›", "‹5› != nil | io.CopyBuffer"),
   ("binary.Write", "range ‹0›"),
   ("(xxh3.New).Sum128", ""),
-  ("def ‹4› := (xxh3.New).Sum128()", "!(‹1› != nil)"),
+  ("def ‹6› := (xxh3.New).Sum128()", "!(‹1› != nil)"),
   ("fmt.Sprintf", ""),
   ("(xxh3.New·1).Sum64", ""),
-  ("return fmt.Sprintf(\"%x%x%016x\", ‹4›.Hi, ‹4›.Lo, (xxh3.New·1).Sum64()), nil", "")] := by rfl
+  ("return fmt.Sprintf(\"%x%x%016x\", ‹6›.Hi, ‹6›.Lo, (xxh3.New·1).Sum64()), nil", "")] := by rfl
 
 /-- what is written into the hash before a file's content: `nameOf` = the slash path relative to
 `t.Dir` (the absolute path itself if `filepath.Rel` fails, which it cannot for a match below
@@ -215,23 +236,27 @@ theorem fingerOrder_timestampIsUpToDate_ok : FingerOrder.timestampIsUpToDate = [
   ("func", "!(len(t.Sources) == 0)"),
   ("return nil", "checker.dry"),
   ("os.MkdirAll", "!(checker.dry) && !‹6›"),
+  ("propagate return ‹8›", "‹8› != nil | os.MkdirAll"),
   ("os.Create", "!(checker.dry) && !‹6›"),
+  ("propagate return ‹9›", "‹9› != nil | os.Create"),
   ("time.Now", "!(checker.dry)"),
-  ("def ‹8› := time.Now()", "!(checker.dry)"),
+  ("def ‹10› := time.Now()", "!(checker.dry)"),
   ("os.Chtimes", "!(checker.dry)"),
-  ("return os.Chtimes(‹5›, ‹8›, ‹8›)", "!(checker.dry)"),
+  ("return os.Chtimes(‹5›, ‹10›, ‹10›)", "!(checker.dry)"),
   ("getMaxTime", "!(len(t.Sources) == 0)"),
   ("(func·0)", "!(len(t.Sources) == 0)"),
   ("anyFileNewerThan", "!(len(t.Sources) == 0)"),
-  ("def ‹9›, ‹1› := anyFileNewerThan(‹10›, ‹11›)", "!(len(t.Sources) == 0) && !(‹1› != nil) && !(‹1› != nil) && !((getMaxTime).IsZero() || ‹1› != nil)"),
+  ("def ‹11›, ‹1› := anyFileNewerThan(‹12›, ‹13›)", "!(len(t.Sources) == 0) && !(‹1› != nil) && !(‹1› != nil) && !((getMaxTime).IsZero() || ‹1› != nil)"),
   ("(func·0)", "!(len(t.Sources) == 0)"),
-  ("def ‹12› := !‹9› && ‹0›", "!(len(t.Sources) == 0) && !(‹1› != nil) && !(‹1› != nil) && !((getMaxTime).IsZero() || ‹1› != nil) && !(‹1› != nil)"),
-  ("(func·0)", "!(len(t.Sources) == 0) && !‹12›"),
-  ("return ‹12›, nil", "!(len(t.Sources) == 0)")] := by rfl
+  ("def ‹14› := !‹11› && ‹0›", "!(len(t.Sources) == 0) && !(‹1› != nil) && !(‹1› != nil) && !((getMaxTime).IsZero() || ‹1› != nil) && !(‹1› != nil)"),
+  ("(func·0)", "!(len(t.Sources) == 0) && !‹14›"),
+  ("propagate return false, ‹15›", "‹15› != nil | (func·0)"),
+  ("return ‹14›, nil", "!(len(t.Sources) == 0)")] := by rfl
 
 theorem fingerOrder_timestampOnError_ok : FingerOrder.timestampOnError = [("return nil", "len(t.Sources) == 0"),
   ("os.Remove", "!(len(t.Sources) == 0)"),
   ("checker.timestampFilePath", "!(len(t.Sources) == 0)"),
+  ("propagate return ‹0›", "‹0› != nil && !os.IsNotExist(‹0›) | os.Remove"),
   ("return nil", "!(len(t.Sources) == 0)")] := by rfl
 
 theorem fingerOrder_timestampPath_ok : FingerOrder.timestampPath = [("filepath.Join", ""),
@@ -251,16 +276,19 @@ theorem fingerOrder_stateFilename_ok : FingerOrder.stateFilename = [("normalizeF
 theorem fingerOrder_isTaskUpToDate_ok : FingerOrder.isTaskUpToDate = [("def ‹0› := &CheckerConfig{method: \"none\", tempDir: \"\", dry: false, logger: nil, statusChecker: nil, sourcesChecker: nil}", ""),
   ("NewStatusChecker", "‹0›.statusChecker == nil"),
   ("NewSourcesChecker", "‹0›.sourcesChecker == nil"),
-  ("def ‹1› := len(t.Status) != 0", ""),
-  ("def ‹2› := len(t.Sources) != 0", ""),
-  ("(&CheckerConfig{}).statusChecker.IsUpToDate", "‹1›"),
-  ("def ‹3›, ‹4› = (&CheckerConfig{}).statusChecker.IsUpToDate(ctx, t)", "‹1›"),
-  ("(&CheckerConfig{}).sourcesChecker.IsUpToDate", "‹2›"),
-  ("def ‹5›, ‹4› = (&CheckerConfig{}).sourcesChecker.IsUpToDate(t)", "‹2›"),
-  ("return ‹3› && ‹5›, nil", "‹1› && ‹2›"),
-  ("return ‹3›, nil", "!(‹1› && ‹2›) && ‹1›"),
-  ("return ‹5›, nil", "!(‹1› && ‹2›) && !(‹1›) && ‹2›"),
-  ("return false, nil", "!(‹1› && ‹2›) && !(‹1›) && !(‹2›)")] := by rfl
+  ("propagate return false, ‹1›", "‹1› != nil | NewSourcesChecker"),
+  ("def ‹2› := len(t.Status) != 0", ""),
+  ("def ‹3› := len(t.Sources) != 0", ""),
+  ("(&CheckerConfig{}).statusChecker.IsUpToDate", "‹2›"),
+  ("def ‹4›, ‹1› = (&CheckerConfig{}).statusChecker.IsUpToDate(ctx, t)", "‹2›"),
+  ("propagate return false, ‹1›", "‹1› != nil | (&CheckerConfig{}).statusChecker.IsUpToDate"),
+  ("(&CheckerConfig{}).sourcesChecker.IsUpToDate", "‹3›"),
+  ("def ‹5›, ‹1› = (&CheckerConfig{}).sourcesChecker.IsUpToDate(t)", "‹3›"),
+  ("propagate return false, ‹1›", "‹1› != nil | (&CheckerConfig{}).sourcesChecker.IsUpToDate"),
+  ("return ‹4› && ‹5›, nil", "‹2› && ‹3›"),
+  ("return ‹4›, nil", "!(‹2› && ‹3›) && ‹2›"),
+  ("return ‹5›, nil", "!(‹2› && ‹3›) && !(‹2›) && ‹3›"),
+  ("return false, nil", "!(‹2› && ‹3›) && !(‹2›) && !(‹3›)")] := by rfl
 
 theorem fingerOrder_globs_ok : FingerOrder.globs = [("def ‹0› := make(map[string]bool)", ""),
   ("glob", "range globs && !(‹1› == nil)"),
@@ -271,10 +299,10 @@ theorem fingerOrder_globs_ok : FingerOrder.globs = [("def ‹0› := make(map[st
 
 theorem fingerOrder_glob_ok : FingerOrder.glob = [("execext.ExpandFields", ""),
   ("def ‹0›, ‹1› := execext.ExpandFields(g)", ""),
+  ("propagate return nil, ‹1›", "‹1› != nil | execext.ExpandFields"),
   ("def ‹2› := make(map[string]bool, len(‹0›))", "!(‹1› != nil)"),
   ("os.Stat", "range ‹0›"),
-  ("def ‹3›, ‹4› := os.Stat(‹5›)", "!(‹1› != nil) && range ‹0›"),
-  ("assign ‹2›[‹5›] = true", "range ‹0› && !((os.Stat).IsDir())"),
+  ("assign ‹2›[‹3›] = true", "range ‹0›"),
   ("collectKeys", ""),
   ("return collectKeys(‹2›), nil", "")] := by rfl
 
@@ -288,7 +316,6 @@ theorem fingerOrder_statusIsUpToDate_ok : FingerOrder.statusIsUpToDate = [("exec
   ("return true, nil", "")] := by rfl
 
 theorem fingerOrder_swallowedErrReturns_ok : FingerOrder.swallowedErrReturns = [("ChecksumChecker.IsUpToDate", "return false, nil | ‹3› != nil | checker.checksum"),
-  ("ChecksumChecker.IsUpToDate", "return false, nil | os.IsNotExist(‹6›) | glob"),
   ("TimestampChecker.IsUpToDate", "return false, nil | ‹1› != nil | Globs"),
   ("TimestampChecker.IsUpToDate", "return false, nil | ‹1› != nil | Globs"),
   ("TimestampChecker.IsUpToDate", "return false, (func·0)() | ‹1› != nil || (getMaxTime).IsZero() | getMaxTime"),
